@@ -46,6 +46,8 @@ var supplements = map[string]monitorSpec{
 	"C06": {"io", "stream_mon_test.go.txt", "stream level: sources delivering 1, 3, 7, 13 or 4096 bytes per call and consumers reading odd-sized pieces get the original bytes"},
 	"C08": {"io", "stream_mon_test.go.txt", "codec-dependent part: sinks and sources that fail after a pseudo-random number of bytes are never answered with success on incomplete data"},
 	"C03": {"io", "stream_mon_test.go.txt", "codec-dependent part: mutated streams never make the reader panic or run longer than 60 s"},
+	"C10": {"io", "golden_mon_test.go.txt", "golden corpus: streams written by the reference snapshot 76efab5 decode to the bytes the reference wrote"},
+	"C17": {"io", "stream_mon_test.go.txt", "lifecycle programs on the real Writer and Reader: operations after Close fail without side effects, Close idempotent, counters monotone"},
 	"C14": {"bitstream", "bits_mon_test.go.txt", "bit-level content: values read back by ReadBit/ReadBits/ReadArray equal the values written by WriteBit/WriteBits/WriteArray, for unaligned counts and short reads"},
 }
 
@@ -104,7 +106,7 @@ func runMonitor(prop, tier, oneCase string) monitorResult {
 		}
 		env = append(env, e)
 	}
-	env = append(env, "GOFLAGS=-mod=mod", "GOPROXY=off", "KVC_MON_TIER="+tier, "KVC_MON_CASE="+oneCase, "KVC_MON_PROP="+prop)
+	env = append(env, "GOFLAGS=-mod=mod", "GOPROXY=off", "KVC_MON_TIER="+tier, "KVC_MON_CASE="+oneCase, "KVC_MON_PROP="+prop, "KVC_MON_GOLDEN="+filepath.Join(verifDir(), "golden"))
 	cmd.Env = env
 	var out bytes.Buffer
 	cmd.Stdout = &out
